@@ -1488,7 +1488,7 @@ pub fn run(ctx: &mut Ctx) {
     }
 
     // ---- A. spy: fault-free exchanges with every crash plan, R = 1..6 ----------------------------
-    let n_cfg = ctx.budget(8, 24);
+    let n_cfg = ctx.budget(24, 48);
     for c in 0..n_cfg {
         for rounds in 1..=6u8 {
             for pad in [0u8, 3, 9] {
@@ -1502,7 +1502,7 @@ pub fn run(ctx: &mut Ctx) {
     }
 
     // ---- B. spy: every single fault at every delivery point, R = 1..4 ----------------------------
-    let n_cfg = ctx.budget(12, 120);
+    let n_cfg = ctx.budget(48, 120);
     for c in 0..n_cfg {
         for rounds in 1..=4u8 {
             let pad = [0u8, 2, 5, 8][(c as usize + rounds as usize) % 4];
@@ -1514,7 +1514,7 @@ pub fn run(ctx: &mut Ctx) {
 
     // ---- C. spy: all pairs of faults, R = 1..3 -----------------------------------------------------
     // quick: pairs over class representatives; thorough: additionally every byte position (pad 0).
-    let n_cfg = ctx.budget(2, 4);
+    let n_cfg = ctx.budget(4, 6);
     for c in 0..n_cfg {
         for rounds in 1..=3u8 {
             let pad = [1u8, 4, 0, 6][c as usize % 4];
@@ -1536,7 +1536,7 @@ pub fn run(ctx: &mut Ctx) {
     // ---- D. spy: sampled fault plans of depth 1..3 for R = 1..6 (per-shard streams) ---------------
     {
         let mut rng = ctx.rng("c12-sampled");
-        let n = ctx.budget(400, 16_000);
+        let n = ctx.budget(1_600, 16_000);
         for rounds in 1..=6u8 {
             let pad = rng.below(10) as u8;
             let s = rng.u64();
@@ -1560,7 +1560,7 @@ pub fn run(ctx: &mut Ctx) {
     }
 
     // ---- F. Prio3 (1 round) and Poplar1 (2 rounds) -------------------------------------------------
-    let n_cfg = ctx.budget(4, 24);
+    let n_cfg = ctx.budget(12, 24);
     for c in 0..n_cfg {
         let s = seed.wrapping_add(c * 4001);
         let mut r = Rng64::derive(s, &["c12-real"], 0);
